@@ -121,8 +121,12 @@ class ArchNode(EvalableModel):
             _parents = []
 
         if hasattr(self, "name"):
+            from accelforge.frontend.arch.components import Compute
+
             yield self, _parents
-            _parents.append(self)
+            # A Compute ends its own path; it is not a parent of the nodes after it.
+            if not isinstance(self, Compute):
+                _parents.append(self)
 
         # Fork -> don't update the _parents list from MY parent because we're branching
         # off
